@@ -4,6 +4,7 @@ package checks
 
 import (
 	"encoding/json"
+	"errors"
 	"fmt"
 	"io"
 	"sort"
@@ -258,6 +259,7 @@ type WConfig struct {
 	ForcePool bool
 	Lean      bool // skip content dimensions (type, pattern, level) - used by the fault checks
 	SizeIdx   int  // 1-based index into S(B) when the size is fixed by the scenario (0: picked inside)
+	SizeAbs   int  // when > 0: the size of the first message, whatever S(B) holds (the big-message scenarios)
 }
 
 func (c WConfig) String() string {
@@ -400,9 +402,21 @@ type chunkReader struct {
 	data    []byte
 	chunk   int
 	withEOF bool
+	failAt  int // when > 0: the source fails (errSrc) once failAt-1 bytes have been delivered
+	done    int
 }
 
+// errSrc is the failure of the application's own source reader (not a transport fault).
+var errSrc = errors.New("source reader failed")
+
 func (r *chunkReader) Read(p []byte) (int, error) {
+	if r.failAt > 0 && r.done >= r.failAt-1 {
+		return 0, errSrc
+	}
+	if r.failAt > 0 && len(p) > r.failAt-1-r.done {
+		p = p[:r.failAt-1-r.done]
+	}
+	defer func(n0 int) { r.done += n0 - len(r.data) }(len(r.data))
 	if len(r.data) == 0 {
 		return 0, io.EOF
 	}
@@ -489,12 +503,43 @@ func (e *WEnv) WriteMessageProg(prog, mt, n, pattern int, pick, pick2 chooser, b
 				}
 			}
 		case PReadFrom:
-			v := pick(6, "readfrom-chunk")
-			chunk := []int{n + 1, 1, effB(e.Cfg.B), n + 1, 1, effB(e.Cfg.B)}[v]
+			v := pick(9, "readfrom-chunk")
+			chunk := []int{n + 1, 1, effB(e.Cfg.B), n + 1, 1, effB(e.Cfg.B), n + 1, 1, effB(e.Cfg.B)}[v]
 			if chunk < 1 {
 				chunk = 1
 			}
-			r := &chunkReader{data: payload, chunk: chunk, withEOF: v >= 3}
+			r := &chunkReader{data: payload, chunk: chunk, withEOF: v >= 3 && v < 6}
+			if v >= 6 {
+				// the application's source fails part-way (after 0 bytes, half, all but one): the copy
+				// reports that error, the writer stays usable and Close sends what was copied
+				r.failAt = 1 + []int{0, n / 2, n - 1}[v-6]
+				if r.failAt < 1 {
+					r.failAt = 1
+				}
+				var k int64
+				ac := e.callQuiet(fmt.Sprintf("io.Copy(chunk=%d,source fails after %d)", chunk, r.failAt-1), func() error {
+					var err error
+					k, err = io.Copy(w, r)
+					return err
+				})
+				switch {
+				case ac.Err == errSrc:
+					if int(k) != r.failAt-1 {
+						e.X.Failf("C01:readfrom-count", "io.Copy from a source that failed after %d bytes reports %d bytes copied", r.failAt-1, k)
+					}
+					payload = payload[:k]
+				case ac.Err == nil:
+					e.X.Failf("C01:source-error-swallowed", "io.Copy returned nil although the source reader failed after %d bytes", r.failAt-1)
+				default: // a transport fault got there first
+					e.Failed = true
+					if e.OnErr != nil {
+						e.OnErr(ac)
+					} else {
+						e.X.Failf(fmt.Sprintf("C01:write-rejected:%s:io.Copy:writer=%s", e.CurKind, roleName(e.Cfg.Server)), "io.Copy on a valid message returned %v (%s)", ac.Err, e.Cfg)
+					}
+				}
+				break
+			}
 			e.call(fmt.Sprintf("io.Copy(chunk=%d,dataWithEOF=%v)", chunk, v >= 3), func() error {
 				k, err := io.Copy(w, r)
 				return shortErr(int(k), n, err)
